@@ -434,6 +434,7 @@ func c01BlockLen(p c01Plan) int {
 }
 
 func runC01(c *fw.Ctx) {
+	runSpxFamily(c, "C01")
 	thorough := c.Tier == "thorough"
 	var item int64
 	sampled := 0
